@@ -132,7 +132,10 @@ fn decode_loop(
                 total_bytes_read += bytes_read;
                 // The output is already reserved to the size of the input. We slowly resize. Here,
                 // we're expecting that 10% of bytes will double in size when converting to UTF-8.
-                output.reserve(input.len() / 10);
+                // Always make room for at least a few characters: reserving less than what the
+                // decoder needs for its next character (e.g. `0` for inputs shorter than 10 bytes)
+                // would make no progress and loop forever.
+                output.reserve((input.len() / 10).max(16));
             }
             (DecoderResult::Malformed(malformed_len, bytes_after_malformed), bytes_read) => {
                 total_bytes_read += bytes_read;
